@@ -31,6 +31,85 @@ def showIMatrix (m : List (List Int)) : String := " / ".intercalate (m.map joinI
 def allRes {α} (l : List (Res α)) (f : α → String) : String :=
   " ".intercalate (l.map (showRes f))
 
+
+/-! ### file-routine verbs -/
+def hexDigit (n : Nat) : Char := if n < 10 then Char.ofNat (48 + n) else Char.ofNat (87 + n)
+def hexOf (b : FIO.Bytes) : String :=
+  if b.isEmpty then "-" else String.ofList (b.flatMap (fun c => [hexDigit (c.toNat / 16), hexDigit (c.toNat % 16)]))
+def hexVal (c : Char) : Option Nat :=
+  if '0' ≤ c ∧ c ≤ '9' then some (c.toNat - 48) else if 'a' ≤ c ∧ c ≤ 'f' then some (c.toNat - 87) else none
+def ofHexAux : List Char → Option FIO.Bytes
+  | [] => some []
+  | a :: b :: r => do
+    let x ← hexVal a; let y ← hexVal b; let t ← ofHexAux r
+    pure (UInt8.ofNat (x * 16 + y) :: t)
+  | _ => none
+def ofHex (s : String) : Option FIO.Bytes := if s == "-" then some [] else ofHexAux s.toList
+
+def strBase : Int := 1000000000000000000000000000000
+/-- string labels travel as integer tokens: "" ↦ 0, "s<k>" ↦ k (canonical decimal, 0 < |k| < 10^6),
+anything else ↦ 10^6 + an injective base-257 code of the bytes -/
+def strOfTok (t : Int) : FIO.Bytes :=
+  if t == 0 then []
+  else if t < strBase then 115 :: FIO.showInt t
+  else
+    let rec dec (fuel n : Nat) : FIO.Bytes :=
+      match fuel with
+      | 0 => []
+      | f+1 => if n == 0 then [] else UInt8.ofNat (n % 257 - 1) :: dec f (n / 257)
+    dec 10000 (t - strBase).toNat
+def tokOfStr (b : FIO.Bytes) : Int :=
+  if b.isEmpty then 0 else
+  let canon : Option Int := match b with
+    | c :: r => if c == 115 && r.length < 8 then
+        match FIO.stoi r with
+        | .ok k => if k != 0 && k < 1000000 && k > -1000000 && FIO.showInt k == r then some k else none
+        | _ => none
+      else none
+    | [] => none
+  match canon with
+  | some k => k
+  | none => strBase + ((b.reverse.foldl (fun a c => a * 257 + (c.toNat + 1)) 0 : Nat) : Int)
+def showLabel (t : Int) : String := if t ≥ strBase then "?" ++ (let h := hexOf (strOfTok t); if h == "-" then "" else h) else toString t
+
+def textToStr (kind : String) : Option (Int → FIO.Bytes) :=
+  if kind == "int" then some FIO.showInt else if kind == "str" then some strOfTok else if kind == "none" then some (fun _ => []) else none
+def textOfStr (kind : String) : Option (FIO.Bytes → Res Int) :=
+  if kind == "int" then some FIO.stoi else if kind == "str" then some (fun b => .ok (tokOfStr b))
+  else if kind == "none" then some (fun _ => .ok 0) else none
+/-- (width, encoder, decoder) of the binary label codecs -/
+def binCodec (kind : String) : Option (Nat × (Int → FIO.Bytes) × (FIO.Bytes → Int)) :=
+  match kind with
+  | "none" => some (0, fun _ => [], fun _ => 0)
+  | "chr" => some (1, FIO.leBytes 1, FIO.ofLeBytes true 1)
+  | "i16" => some (2, FIO.leBytes 2, FIO.ofLeBytes true 2)
+  | "int" => some (4, FIO.leBytes 4, FIO.ofLeBytes true 4)
+  | "uint" => some (4, FIO.leBytes 4, FIO.ofLeBytes false 4)
+  | "i64" => some (8, FIO.leBytes 8, FIO.ofLeBytes true 8)
+  | "flt" => some (4, FIO.ieeeBytes 4 23 127, FIO.ofIeee 4 23 127)
+  | "dbl" => some (8, FIO.ieeeBytes 8 52 1023, FIO.ofIeee 8 52 1023)
+  | _ => none
+
+def ioWrite (sl : Slot) (verb kind : String) : Option (List String) :=
+  match sl with
+  | .gr und g =>
+    if g.labelled != (kind != "none") then none else
+    if verb == "writetext" then do
+      let f ← textToStr kind
+      match FIO.writeTextGraph und g f with
+      | .ok b => pure ["R ok", "F " ++ hexOf b]
+      | .threw e => pure ["R !" ++ e.name]
+      | .ub => pure ["R !UB"]
+    else if verb == "writebin" then do
+      let (_, enc, _) ← binCodec kind
+      match FIO.writeBinGraph und g enc with
+      | .ok b => pure ["R ok", "F " ++ hexOf b]
+      | .threw e => pure ["R !" ++ e.name]
+      | .ub => pure ["R !UB"]
+    else none
+  | _ => none
+
+
 /-- lines common to all classes -/
 def dumpBase {L : Type} [Inhabited L] (und : Bool) (g : G L) : List String :=
   let n := g.size
@@ -48,7 +127,7 @@ def dumpLabels (und : Bool) (g : G Int) : List String :=
   rng.map (fun i => s!"L {i}: " ++ " ".intercalate (rng.map (fun j =>
       let a := if und then g.uGetEdgeLabel i j true else g.dGetEdgeLabel i j true
       let b := if und then g.uGetEdgeLabel i j false else g.dGetEdgeLabel i j false
-      showRes toString a ++ "/" ++ showRes toString b)))
+      showRes showLabel a ++ "/" ++ showRes showLabel b)))
 
 def dumpDirObs {L : Type} [Inhabited L] (g : G L) : List String :=
   let rng := List.range g.size
@@ -325,6 +404,7 @@ def isAlgoVerb (v : String) : Bool :=
   v == "bfs" || v == "allpred" || v == "geodesic" || v == "allgeodesics" || v == "geodesicsfrom" ||
   v == "allgeodesicsfrom" || v == "dijkstra"
 
+
 def ofRes {α} (r : Res α) (f : α → Slot) : Slot × String :=
   match r with
   | .ok a => (f a, "ok")
@@ -387,6 +467,12 @@ def step (ss : Slots) (line : String) : Slots × List String :=
           (ss, ("R " ++ out) :: (dumpSlot a src ++ dumpSlot b sl))
         | none => (ss, [bad])
       | _, _ => (ss, [bad])
+    else if verb == "writetext" || verb == "writebin" then
+      match nat? a with
+      | some s => match ioWrite (getSlot ss s) verb b with
+        | some outs => (ss, outs)
+        | none => (ss, [bad])
+      | none => (ss, [bad])
     else if isAlgoVerb verb then
       match nat? a with
       | some s =>
@@ -398,6 +484,89 @@ def step (ss : Slots) (line : String) : Slots × List String :=
       match nat? a with
       | some s =>
         match mutate (getSlot ss s) verb [b] with
+        | some (sl, out) => let ss := setSlot ss s sl; (ss, ("R " ++ out) :: dumpSlot s sl)
+        | none => (ss, [bad])
+      | none => (ss, [bad])
+  | ["openfail", _, _, _, _] => (ss, ["R !rte"])
+  | [verb, a, b, kind] =>
+    if verb == "roundtriptext" || verb == "roundtripbin" then
+      match nat? a, nat? b with
+      | some a, some b =>
+        match getSlot ss a with
+        | .gr und g =>
+          if g.labelled != (kind != "none") || a == b then (ss, [bad]) else
+          if verb == "roundtriptext" then
+            match textToStr kind, textOfStr kind with
+            | some enc, some dec =>
+              match FIO.writeTextGraph und g enc with
+              | .ok bytes =>
+                match FIO.loadText und false (kind != "none") dec bytes with
+                | .ok (h, names) =>
+                  let sl := Slot.gr und h
+                  (setSlot ss b sl, ["R ok names=" ++ ",".intercalate (names.map hexOf), "F " ++ hexOf bytes] ++ dumpSlot b sl)
+                | .threw e => (setSlot ss b .empty, ["R !" ++ e.name, "F " ++ hexOf bytes] ++ dumpSlot b .empty)
+                | .ub => (setSlot ss b .empty, ["R !UB", "F " ++ hexOf bytes] ++ dumpSlot b .empty)
+              | .threw e => (ss, ["R !" ++ e.name])
+              | .ub => (ss, ["R !UB"])
+            | _, _ => (ss, [bad])
+          else
+            match binCodec kind with
+            | some (w, enc, dec) =>
+              match FIO.writeBinGraph und g enc with
+              | .ok bytes =>
+                let (sl, out) := ofRes (FIO.loadBin und (kind != "none") w dec bytes) (Slot.gr und)
+                (setSlot ss b sl, ["R " ++ out, "F " ++ hexOf bytes] ++ dumpSlot b sl)
+              | .threw e => (ss, ["R !" ++ e.name])
+              | .ub => (ss, ["R !UB"])
+            | none => (ss, [bad])
+        | _ => (ss, [bad])
+      | _, _ => (ss, [bad])
+    else
+      match nat? a with
+      | some s0 =>
+        if isAlgoVerb verb then
+          match algo (getSlot ss s0) verb [b, kind] with
+          | some outs => (ss, outs)
+          | none => (ss, [bad])
+        else
+        match mutate (getSlot ss s0) verb [b, kind] with
+        | some (sl, out) => let ss := setSlot ss s0 sl; (ss, ("R " ++ out) :: dumpSlot s0 sl)
+        | none => (ss, [bad])
+      | none => (ss, [bad])
+  | [verb, s, cls, kind, hex] =>
+    if verb == "loadtext" || verb == "loadtextnamed" || verb == "loadbin" then
+      match nat? s, ofHex hex with
+      | some s, some bytes =>
+        let und := cls == "und"
+        if cls != "dir" && cls != "und" then (ss, [bad]) else
+        if verb == "loadbin" then
+          match binCodec kind with
+          | some (w, _, dec) =>
+            let (sl, out) := ofRes (FIO.loadBin und (kind != "none") w dec bytes) (Slot.gr und)
+            let ss := setSlot ss s sl
+            (ss, ("R " ++ out) :: dumpSlot s sl)
+          | none => (ss, [bad])
+        else
+          match textOfStr kind with
+          | some f =>
+            match FIO.loadText und (verb == "loadtextnamed") (kind != "none") f bytes with
+            | .ok (g, names) =>
+              let sl := Slot.gr und g
+              let ss := setSlot ss s sl
+              (ss, ("R ok names=" ++ ",".intercalate (names.map hexOf)) :: dumpSlot s sl)
+            | .threw e => (setSlot ss s .empty, ["R !" ++ e.name] ++ dumpSlot s .empty)
+            | .ub => (setSlot ss s .empty, ["R !UB"] ++ dumpSlot s .empty)
+          | none => (ss, [bad])
+      | _, _ => (ss, [bad])
+    else
+      match nat? s with
+      | some s =>
+        if isAlgoVerb verb then
+          match algo (getSlot ss s) verb [cls, kind, hex] with
+          | some outs => (ss, outs)
+          | none => (ss, [bad])
+        else
+        match mutate (getSlot ss s) verb [cls, kind, hex] with
         | some (sl, out) => let ss := setSlot ss s sl; (ss, ("R " ++ out) :: dumpSlot s sl)
         | none => (ss, [bad])
       | none => (ss, [bad])
@@ -453,7 +622,7 @@ def step (ss : Slots) (line : String) : Slots × List String :=
 
 /-- dump lines (everything that is not an outcome line) are suppressed in quiet mode, except for
 an explicit `dump` request -/
-def isDumpLine (l : String) : Bool := !(l.startsWith "R " || l.startsWith "P " || l.startsWith "T " || l == bad)
+def isDumpLine (l : String) : Bool := !(l.startsWith "R " || l.startsWith "P " || l.startsWith "T " || l.startsWith "F " || l == bad)
 
 partial def loop (h : IO.FS.Stream) (out : IO.FS.Stream) (ss : Slots) (quiet : Bool) : IO Unit := do
   let line ← h.getLine
